@@ -505,7 +505,7 @@ def run_unit(u):
             for r in (1, 2):
                 for combo in itertools.permutations(range(4), r):
                     lists.append([marks[i] for i in combo])
-            for parent in ["paragraph", "plain", "p_all", "p_A", "p_BC", "p_grp"]:
+            for parent in ["paragraph", "plain", "p_all", "p_A", "p_BC", "p_grp", "p_both"]:
                 for ms in lists:
                     for child in ({"type": "text", "text": "a"}, {"type": "atom"}):
                         kid = dict(child)
